@@ -1,7 +1,7 @@
 #!/bin/bash
 # Confirm a seeded change produced by a sub-agent, in its scratch worktree, and store it.
 # usage: confirm_seed.sh <PROP> <mN>     (expects /tmp/out_<PROP>/<mN>.diff, <mN>_demo.rs, <mN>_meta.json)
-P=$1; M=$2; WT=/tmp/wt_$P; OUT=/tmp/out_$P
+P=$1; M=$2; R=${3:-}; WT=/tmp/wt${R}_$P; OUT=/tmp/out${R}_$P
 set -u
 cd $WT || exit 2
 git checkout -q -- src
@@ -28,7 +28,7 @@ src,dst,p,npass=sys.argv[1:5]
 try: m=json.load(open(src))
 except Exception as e: m={"summary":"(agent meta unreadable: %s)"%e}
 out={"property":p,"breaks":m.get("summary"),"needs_to_manifest":m.get("needs_to_manifest"),
- "confirmed_by_me":{"where":"scratch worktree /tmp/wt_%s (since removed)"%p,
+ "confirmed_by_me":{"where":"scratch worktree /tmp/wt*_%s (since removed)"%p,
    "demo_passes_on_unchanged_tree":True,"lib_tests_with_change":npass,"demo_fails_with_change":True,
    "commands":["cargo test --offline --test <demo> (unchanged: pass)","git apply patch.diff","cargo test --offline --lib","cargo test --offline --test <demo> (fails)","git checkout -- src"]},
  "origin":"independent sub-agent given only the property text","detected_by":None}
